@@ -77,9 +77,15 @@ PickValues ==
                     << Used(1, "ELECTRICIDAD", "CAL", ua), Used(1, "ELECTRICIDAD", "ACS", ub),
                        Used(2, "GASNATURAL", "CAL", Const(2)) >>
                     \o (IF shape.nep THEN <<Used(0, "ELECTRICIDAD", "NEPB", nev)>> ELSE <<>>)
-                    \o (IF shape.pv THEN <<Prod(0, "EL_INSITU", pvv)>> ELSE <<>>)
-                    \o (IF shape.chp THEN <<Prod(3, "EL_COGEN", chv),
-                                            Used(3, Fuels[gi], "COGEN", [t \in 1..n |-> 2 * chv[t] + t])>> ELSE <<>>)
+                    \* a source may be declared by several components (two PV fields, two cogenerators): in one
+                    \* third / one fifth of the buildings the production is split over two system ids
+                    \o (IF shape.pv THEN (IF h % 5 = 0 THEN <<Prod(0, "EL_INSITU", [t \in 1..n |-> pvv[t] \div 2]),
+                                                              Prod(7, "EL_INSITU", [t \in 1..n |-> pvv[t] - (pvv[t] \div 2)])>>
+                                          ELSE <<Prod(0, "EL_INSITU", pvv)>>) ELSE <<>>)
+                    \o (IF shape.chp THEN (IF h % 3 = 0 THEN <<Prod(3, "EL_COGEN", [t \in 1..n |-> chv[t] - (chv[t] \div 2)]),
+                                                               Prod(6, "EL_COGEN", [t \in 1..n |-> chv[t] \div 2])>>
+                                           ELSE <<Prod(3, "EL_COGEN", chv)>>)
+                                          \o <<Used(3, Fuels[gi], "COGEN", [t \in 1..n |-> 2 * chv[t] + t])>> ELSE <<>>)
                     \o (IF shape.th THEN <<Used(4, "EAMBIENTE", "ACS", Const(1)), Prod(4, "EAMBIENTE", [t \in 1..n |-> t]),
                                            Used(5, "RED1", "CAL", Const(1)), Need("ACS", Const(3))>> ELSE <<>>)
   /\ UNCHANGED <<n, lm, shape, part>>
